@@ -1072,7 +1072,7 @@ pub fn run_hnsw_case(case: &Case, case_json: &Value) -> RunOutcome {
                                 Ok(n) => n.max_level(),
                                 Err(_) => turdb::hnsw::operations::select_level(*rnd, turdb::hnsw::operations::calculate_ml(case.m)),
                             };
-                            run.model.pages.entry(nidk.0).or_default().push(slot_size(lvl));
+                            run.model.pages.entry(nidk.0).or_default().push(slot_size(lvl_pred));
                             run.model.nodes.push(MNode { nid: nidk, row: *row, vec: given, level: lvl, links_at_delete: None, deleted: false, deleted_by_node: false });
                             run.model.live.insert(*row, pos);
                             inserts_done += 1;
